@@ -138,6 +138,12 @@ def answer (tables : Array (Table × Nat)) (m : Assoc Nat) (d : Dict Nat) (op : 
       let sh := fun (o : Option Nat) => match o with | some v => s!"some{v}" | none => "none"
       s!"{sh (SSTable.valueAtOrd m o)}~{sh (d.valueAtOrd o)}"
     | none => "bad-op"
+  | ["sorted", os] =>
+    match valList os with
+    | some os =>
+      let sh := fun (r : List Key × Bool) => s!"{showKeys r.1}/{showBool r.2}"
+      s!"{sh (sortedOrdsSpec m os)}~{sh (d.sortedOrdsToTerm os)}"
+    | none => "bad-op"
   | ["blk", k] =>
     match bytesOfHex k with
     | some k => match (d.locateKey k).bind d.blockAt with
